@@ -17,12 +17,41 @@ theorem fieldToken_direct_implies_joined (tok : Str → List Str) (row : J) (c :
     (h : matchBloomCond tok (emissions row) c = true) : entryCond (rowEntries tok row) c = true :=
   bloomCond_entries tok (emissions row) c h
 
+/-- witness tokenizer: split on blanks (the reference splitter with a one-character separator set) -/
+private def nv_tok : Str → List Str := fieldsOn (fun c => c == ' ')
+/-- witness row `{"a":{"b":"hello world","n":42},"c.d":[true,null]}` -/
+private def nv_json : J :=
+  .obj [("a".toList, .obj [("b".toList, .str "hello world".toList), ("n".toList, .num "42".toList)]),
+        ("c.d".toList, .arr [.bool true, .null])]
+
+/-- non-vacuity: a FIELD_TOKEN condition on a nested path holds of a two-level row (second token of the leaf) -/
+example :
+    matchBloomCond nv_tok (emissions nv_json) { Kind := "FIELD_TOKEN", Field := "a.b".toList, Token := "world".toList } = true ∧
+    entryCond (rowEntries nv_tok nv_json) { Kind := "FIELD_TOKEN", Field := "a.b".toList, Token := "world".toList } = true :=
+  ⟨by decide, fieldToken_direct_implies_joined nv_tok nv_json _ (by decide)⟩
+
 /-- A regex tree that is true of a row implies its Field guard on the row's own entries. -/
 theorem guard_sound (tok : Str → List Str) (re : Str → Str → Bool) (reOK : Str → Bool) (row : J)
     (rx : RegexExpr) (hv : rxValid reOK rx = true)
     (h : matchRegex re (emissions row) (some rx) = true) :
     Expr.evalOpt (entryCond (rowEntries tok row)) (guardOf rx) = true :=
   guard_sound_aux tok re reOK row rx hv h
+
+/-- witness regex oracle: "pattern is a prefix of the text" -/
+private def nv_re : Str → Str → Bool := fun p t => p.isPrefixOf t
+/-- witness regex tree: AND [ a.b ~ "hel", OR [ zz ~ "q", a ~ "4" ], CONDITION nil ] -/
+private def nv_rx : RegexExpr :=
+  .mk "AND" none
+    [.mk "CONDITION" (some { Field := "a.b".toList, Pattern := "hel".toList }) [],
+     .mk "OR" none [.mk "CONDITION" (some { Field := "zz".toList, Pattern := "q".toList }) [],
+                    .mk "CONDITION" (some { Field := "a".toList, Pattern := "4".toList }) []],
+     .mk "CONDITION" none []]
+
+/-- non-vacuity: a three-level regex tree (AND / OR / nil condition) that compiles and is true of the nested row -/
+example :
+    rxValid (fun p => !p.isEmpty) nv_rx = true ∧ matchRegex nv_re (emissions nv_json) (some nv_rx) = true ∧
+    Expr.evalOpt (entryCond (rowEntries nv_tok nv_json)) (guardOf nv_rx) = true :=
+  ⟨by decide, by decide, guard_sound nv_tok nv_re (fun p => !p.isEmpty) nv_json nv_rx (by decide) (by decide)⟩
 
 /-- The fast tokenizer path is the reference tokenizer, on the regenerated Unicode tables. -/
 theorem fast_tokenizer_default (s : Str) : defaultTokFast s = defaultTok s :=
@@ -34,10 +63,47 @@ theorem match_implies_entries (s : Sem) (reOK : Str → Bool) (q : Query) (r : R
     Expr.evalOpt (entryCond (rowEntries s.tok r.json)) q.prune = true :=
   match_entries s reOK q r hv h
 
+private def nv_sem : Sem := { tok := nv_tok, re := nv_re }
+/-- witness prefilter view of a row: partition `pid`, one indexed value under key "n" -/
+private def nv_pre (pid : String) (v : NumVal) : RowPre :=
+  { pid := pid, vals := fun f => if f = "n" then some v else none }
+private def nv_r1 : Row := { json := nv_json, pre := nv_pre "p1" (.int 42) }
+private def nv_r2 : Row :=
+  { json := .obj [("a".toList, .obj [("b".toList, .str "bye".toList)])], pre := nv_pre "p1" (.int 7) }
+private def nv_r3 : Row :=
+  { json := .obj [("a".toList, .str "hello".toList)], pre := nv_pre "p2" (.int 45) }
+/-- witness query: partition = p1 AND n BETWEEN 40 AND 50; token "world" under a.b; the regex tree above -/
+private def nv_q : Query :=
+  { pre := some (.mk "AND" none
+      [.mk "CONDITION" (some { ConditionType := "PARTITION", PartitionCondition := some ({ Operator := "EQ", Value := "p1" } : StringCondition) }) [],
+       .mk "CONDITION" (some { ConditionType := "MINMAX", MinMaxFieldName := "n", MinMaxCondition := some ({ Operator := "BETWEEN", Min := 40, Max := 50 } : NumericCondition) }) []]),
+    bloom := some (.mk "CONDITION" (some { Kind := "FIELD_TOKEN", Field := "a.b".toList, Token := "world".toList }) []),
+    regex := some nv_rx }
+
+/-- non-vacuity: a valid bloom + regex query matched by the nested row -/
+example :
+    nv_q.Valid (fun p => !p.isEmpty) ∧ rowMatches nv_sem nv_q nv_r1 = true ∧
+    Expr.evalOpt (entryCond (rowEntries nv_sem.tok nv_r1.json)) nv_q.prune = true := by
+  have hv : nv_q.Valid (fun p => !p.isEmpty) := by
+    intro e he; cases he; decide
+  exact ⟨hv, by decide, match_implies_entries nv_sem _ nv_q nv_r1 hv (by decide)⟩
+
 /-- Filters that contain the entries dominate exact-set evaluation (absent filter ⇒ true). -/
 theorem filters_ge_exact (f : Filt) (en : Entries) (p : Option BloomExpr) (hc : FiltCovers f en)
     (h : Expr.evalOpt (entryCond en) p = true) : evalFilt f p = true :=
   filt_ge_entries f en p hc h
+
+/-- witness filter builder: exact membership (a bloom filter without false positives) -/
+private def nv_build : List Str → (Str → Bool) := fun l x => l.contains x
+
+/-- non-vacuity: filters built from the row's own entries cover them, and the prune query holds on the entries -/
+example :
+    FiltCovers (buildFilt nv_build (rowEntries nv_tok nv_json)) (rowEntries nv_tok nv_json) ∧
+    Expr.evalOpt (entryCond (rowEntries nv_tok nv_json)) nv_q.prune = true ∧
+    evalFilt (buildFilt nv_build (rowEntries nv_tok nv_json)) nv_q.prune = true := by
+  have hc : FiltCovers (buildFilt nv_build (rowEntries nv_tok nv_json)) (rowEntries nv_tok nv_json) := by
+    refine ⟨?_, ?_, ?_⟩ <;> (intro g hg; cases hg; decide)
+  exact ⟨hc, by decide, filters_ge_exact _ _ _ hc (by decide)⟩
 
 /-- **C01**: whatever produced the files, if they are index-covered (`FileWF`, established by
     flush and merge: C18), every stored row that matches the bloom and regex expressions under the
@@ -50,5 +116,64 @@ theorem C01_no_false_negatives (s : Sem) (reOK : Str → Bool) (files : List Fil
     (hm : rowMatches s q r = true) (hp : rowSatPre r.pre q.pre = true) :
     r ∈ query s files q :=
   no_false_negatives s reOK files q f b r hwf hf hb hr hv hpre hm hp
+
+/-- witness file: a flush of two partition buffers (two rows in p1, one in p2), minmax key "n" -/
+private def nv_parts : List (String × List Row) := [("p1", [nv_r1, nv_r2]), ("p2", [nv_r3])]
+private def nv_file : FileM := flushFile nv_sem nv_build ["n"] nv_parts
+
+/-- non-vacuity: the premises of `C01_no_false_negatives` hold for a two-file flushed store, a three-part query and the nested row of a two-row block; it is returned -/
+example :
+    let files := [flushFile nv_sem nv_build ["n"] [("p2", [nv_r3])], nv_file]
+    let b := mkBlock nv_sem nv_build ["n"] "p1" [nv_r1, nv_r2]
+    (∀ f ∈ files, FileWF nv_sem f) ∧ nv_file ∈ files ∧ b ∈ nv_file.blocks ∧ nv_r1 ∈ b.rows ∧
+    nv_q.Valid (fun p => !p.isEmpty) ∧ Expr.ForallOpt PreCond.WF nv_q.pre ∧
+    rowMatches nv_sem nv_q nv_r1 = true ∧ rowSatPre nv_r1.pre nv_q.pre = true ∧
+    nv_r1 ∈ query nv_sem files nv_q := by
+  intro files b
+  have hfc : ∀ l l' : List Str, (∀ x ∈ l', l.contains x = true) → FiltCoversList (some (nv_build l)) l' := by
+    intro l l' h g hg; cases hg; exact h
+  have hFC : ∀ all en : Entries, (∀ x ∈ en.fields, all.fields.contains x = true) →
+      (∀ x ∈ en.tokens, all.tokens.contains x = true) →
+      (∀ x ∈ en.fieldTokens, all.fieldTokens.contains x = true) → FiltCovers (buildFilt nv_build all) en :=
+    fun _ _ h1 h2 h3 => ⟨hfc _ _ h1, hfc _ _ h2, hfc _ _ h3⟩
+  have hCov : ∀ pid v (m : DataBlockMetadata) (mm : MinMaxIndex), m.PartitionID = pid →
+      lookupMM "n" m.MinMaxIndexes = some mm → mm.Min ≤ (toRange v).1 → (toRange v).2 ≤ mm.Max →
+      Covers m (nv_pre pid v) := by
+    intro pid v m mm h1 h2 h3 h4
+    refine ⟨h1, fun f w h => ?_⟩
+    simp only [nv_pre] at h; split at h
+    · subst f; cases h; exact ⟨mm, h2, h3, h4⟩
+    · cases h
+  have hwf : ∀ f ∈ files, FileWF nv_sem f := by
+    intro f hf b hb
+    simp only [files, List.mem_cons, List.mem_nil_iff, or_false] at hf
+    rcases hf with rfl | rfl
+    · simp only [flushFile, List.map_cons, List.map_nil, List.mem_cons, List.mem_nil_iff, or_false] at hb
+      subst hb
+      refine ⟨fun r hr => ?_, fun r hr => ?_⟩ <;>
+        (simp only [mkBlock, List.mem_cons, List.mem_nil_iff, or_false] at hr; subst hr)
+      · exact ⟨hCov _ _ _ ⟨45, 45⟩ rfl (by decide) (by decide) (by decide), hFC _ _ (by decide) (by decide) (by decide)⟩
+      · exact hFC _ _ (by decide) (by decide) (by decide)
+    · simp only [nv_file, nv_parts, flushFile, List.map_cons, List.map_nil, List.mem_cons, List.mem_nil_iff, or_false] at hb
+      rcases hb with rfl | rfl
+      · refine ⟨fun r hr => ?_, fun r hr => ?_⟩ <;>
+          (simp only [mkBlock, List.mem_cons, List.mem_nil_iff, or_false] at hr; rcases hr with rfl | rfl)
+        · exact ⟨hCov _ _ _ ⟨7, 42⟩ rfl (by decide) (by decide) (by decide), hFC _ _ (by decide) (by decide) (by decide)⟩
+        · exact ⟨hCov _ _ _ ⟨7, 42⟩ rfl (by decide) (by decide) (by decide), hFC _ _ (by decide) (by decide) (by decide)⟩
+        · exact hFC _ _ (by decide) (by decide) (by decide)
+        · exact hFC _ _ (by decide) (by decide) (by decide)
+      · refine ⟨fun r hr => ?_, fun r hr => ?_⟩ <;>
+          (simp only [mkBlock, List.mem_cons, List.mem_nil_iff, or_false] at hr; subst hr)
+        · exact ⟨hCov _ _ _ ⟨45, 45⟩ rfl (by decide) (by decide) (by decide), hFC _ _ (by decide) (by decide) (by decide)⟩
+        · exact hFC _ _ (by decide) (by decide) (by decide)
+  have hf : nv_file ∈ files := .tail _ (.head _)
+  have hb : b ∈ nv_file.blocks := .head _
+  have hr : nv_r1 ∈ b.rows := .head _
+  have hv : nv_q.Valid (fun p => !p.isEmpty) := by intro e he; cases he; decide
+  have hpre : Expr.ForallOpt PreCond.WF nv_q.pre := by
+    simp [nv_q, Expr.ForallOpt, Expr.Forall, Expr.ForallL, PreCond.WF, NumericCondition.WF]
+    decide
+  exact ⟨hwf, hf, hb, hr, hv, hpre, by decide, by decide,
+    C01_no_false_negatives nv_sem _ files nv_q nv_file b nv_r1 hwf hf hb hr hv hpre (by decide) (by decide)⟩
 
 end BloomVerif.C01
